@@ -106,3 +106,54 @@ macro_rules! radix_dispatch {
         }
     }};
 }
+
+/// float format with explicit mantissa radix / exponent base / exponent-digit radix
+#[cfg(feature = "power-of-two")]
+pub const fn float_fmt(r: u8, b: u8, x: u8) -> u128 {
+    NumberFormatBuilder::new()
+        .mantissa_radix(r)
+        .exponent_base(core::num::NonZeroU8::new(b))
+        .exponent_radix(core::num::NonZeroU8::new(x))
+        .build_strict()
+}
+
+/// (radix, base, exponent radix) triples compiled into the float executors for this configuration
+pub fn float_triples() -> Vec<(u32, u32, u32)> {
+    let mut v = Vec::new();
+    macro_rules! push {
+        ($r:literal, $b:literal, $x:literal) => {
+            v.push(($r, $b, $x));
+        };
+    }
+    crate::float_formats!(push);
+    v
+}
+
+/// `float_formats!(mac)` expands `mac!(r, b, x)` for every compiled (radix, base, exp radix)
+#[cfg(feature = "radix")]
+#[macro_export]
+macro_rules! float_formats {
+    ($m:ident) => {
+        $m!(2, 2, 2); $m!(3, 3, 3); $m!(4, 4, 4); $m!(5, 5, 5); $m!(6, 6, 6); $m!(7, 7, 7); $m!(8, 8, 8); $m!(9, 9, 9);
+        $m!(11, 11, 11); $m!(12, 12, 12); $m!(13, 13, 13); $m!(14, 14, 14); $m!(15, 15, 15); $m!(16, 16, 16); $m!(17, 17, 17);
+        $m!(18, 18, 18); $m!(19, 19, 19); $m!(20, 20, 20); $m!(21, 21, 21); $m!(22, 22, 22); $m!(23, 23, 23); $m!(24, 24, 24);
+        $m!(25, 25, 25); $m!(26, 26, 26); $m!(27, 27, 27); $m!(28, 28, 28); $m!(29, 29, 29); $m!(30, 30, 30); $m!(31, 31, 31);
+        $m!(32, 32, 32); $m!(33, 33, 33); $m!(34, 34, 34); $m!(35, 35, 35); $m!(36, 36, 36);
+        $m!(2, 2, 10); $m!(3, 3, 10); $m!(16, 16, 10); $m!(36, 36, 10); $m!(12, 12, 7);
+        $m!(4, 2, 10); $m!(8, 2, 10); $m!(16, 2, 10); $m!(32, 2, 10); $m!(16, 4, 10); $m!(16, 2, 16); $m!(16, 4, 4); $m!(8, 2, 2);
+    };
+}
+#[cfg(all(feature = "power-of-two", not(feature = "radix")))]
+#[macro_export]
+macro_rules! float_formats {
+    ($m:ident) => {
+        $m!(2, 2, 2); $m!(4, 4, 4); $m!(8, 8, 8); $m!(16, 16, 16); $m!(32, 32, 32);
+        $m!(2, 2, 10); $m!(16, 16, 10); $m!(8, 8, 10); $m!(32, 32, 10);
+        $m!(4, 2, 10); $m!(8, 2, 10); $m!(16, 2, 10); $m!(32, 2, 10); $m!(16, 4, 10); $m!(16, 2, 16); $m!(16, 4, 4); $m!(8, 2, 2);
+    };
+}
+#[cfg(not(feature = "power-of-two"))]
+#[macro_export]
+macro_rules! float_formats {
+    ($m:ident) => {};
+}
